@@ -179,7 +179,7 @@ func shapesKey(d *dynamicpb.Message) string {
 
 func runC0405(cfg *config, res *monitor.Result) {
 	installCopyObserver()
-	nrand := 60
+	nrand := 200
 	if cfg.thorough() {
 		nrand = 1500
 	}
